@@ -116,6 +116,35 @@ Proof.
   lia.
 Qed.
 
+Lemma ifinished_owned (l : list iworker) : (forall w, In w l -> ifinished w) ->
+  Permutation (flat_map iseen l ++ flat_map iaband l) (flat_map own l).
+Proof.
+  induction l as [|w t IH]; intros Hfin; [reflexivity|]. cbn [flat_map].
+  assert (E : own w = iseen w ++ iaband w).
+  { unfold own, owned, pending, wk; cbn [ph seen aband].
+    destruct (Hfin w (or_introl eq_refl)) as [-> | ->]; reflexivity. }
+  rewrite E. rewrite <- IH by (intros x Hx; apply Hfin; right; auto).
+  rewrite <- !app_assoc. apply Permutation_app_head.
+  rewrite !app_assoc. apply Permutation_app_tail. apply Permutation_app_comm.
+Qed.
+
+(** C13 / C14 over iterator sources: for every schedule and whatever closures panic, when all
+    threads have finished, every element the user's iterator has yielded was handed to exactly
+    one worker and has been either processed (moved on into safe code) or abandoned (dropped
+    with that worker's chunk buffer) exactly once -- never both, never twice.  What was never
+    yielded is still inside the user's iterator and is dropped with it. *)
+Theorem imrunp_source_accounting srclen ordered stop panics sched :
+  iall_done (imrunp srclen ordered stop panics sched) ->
+  Permutation (flat_map iseen (iws (imrunp srclen ordered stop panics sched))
+               ++ flat_map iaband (iws (imrunp srclen ordered stop panics sched)))
+              (seq 0 (ifront (imrunp srclen ordered stop panics sched)))
+  /\ ifront (imrunp srclen ordered stop panics sched) <= srclen.
+Proof.
+  intros [_ Hfin]. pose proof (imrunp_IGInv srclen ordered stop panics sched) as G.
+  split; [|apply (I_front G)].
+  rewrite <- (I_perm G). apply ifinished_owned. exact Hfin.
+Qed.
+
 End IterRun.
 
 (** ** the kernel results over an iterator source *)
